@@ -66,7 +66,24 @@ if [ -n "$RACE_SWITCH" ] && [ -z "${VERIF_SKIP_RACE:-}" ]; then
     export RACE_RESULT="race build failed"
   fi
 fi
-"$bin" -prop "$prop" -tier "$tier"
+errlog=$(mktemp "${TMPDIR:-/tmp}/mcerr.XXXXXX")
+"$bin" -prop "$prop" -tier "$tier" 2> >(tee "$errlog" >&2)
 rc=$?
+sleep 0.2   # let tee drain
+if [ $rc -ne 0 ] && [ $rc -ne 1 ] && grep -q '^fatal error:\|^panic:\|^SIG[A-Z]*:\|^unexpected fault' "$errlog"; then
+  # The checking process itself was killed while it evaluated the property's program family (a Go fatal error such as
+  # "stack overflow" or "concurrent map writes" cannot be recovered in-process).  On the unchanged tree this never
+  # happens; when it does, evaluating some program of the family took the whole process -- and every other runtime
+  # in it -- down.  The trace (which names the function of the code under test it died in) is the artefact.
+  mkdir -p "${VERIF_DIR:-$here}/replay/$prop"
+  rp="${VERIF_DIR:-$here}/replay/$prop/died-$(date +%s).log"
+  cp "$errlog" "$rp"
+  first=$(grep -m1 '^fatal error:\|^panic:\|^SIG[A-Z]*:\|^unexpected fault' "$errlog" | tr -s ' ' | tr ' ' '-' | cut -c1-60)
+  where=$(grep -m1 -o 'github.com/luthersystems/elps/[^ ]*' "$errlog" | sed -e 's|github.com/luthersystems/elps/||' -e 's/([0-9a-fx,?{}. ]*)$//')
+  echo "VIOLATION property=$prop replay=$rp"
+  echo "  class=checking-process-killed:$first:in:${where:-unknown}"
+  rc=1
+fi
+rm -f "$errlog"
 [ $rc -eq 0 ] && rc=$rc_race
 exit $rc
